@@ -190,6 +190,9 @@ def main():
                 # drop a real segment (a trailing slash alone is the frameworks' strict-slash business)
                 variants.append(("missing-segment", rq["method"], core.rsplit("/", 1)[0]))
             variants.append(("other-prefix", rq["method"], "/nosuchprefix" + rq["path"]))
+            if rq["method"] == "GET" and not any(m2["verb"] == "HEAD" for c2, m2 in allroutes):
+                # HEAD cannot be annotated: a GET route does not make the router run the method for HEAD
+                variants.append(("head-probe", "HEAD", rq["path"]))
             # a negative value of a signed integer path parameter is a documented value: same method
             for prm in m["params"]:
                 vv = "/" + C12.VALID.get(prm["type"], "?")
@@ -228,6 +231,8 @@ def main():
             mt = f.get("match", {})
             if mt.get("kind") == "extra-segment-after-trailing-path-param" and kind == "extra-segment" and \
                     e in mt.get("engines", []) and tmpl.rstrip("/").endswith("}"):
+                hit = f
+            if mt.get("kind") == "head-probe-on-get-route" and kind == "head-probe" and e in mt.get("engines", []):
                 hit = f
         if hit:
             res.known(hit, "%s: %s %s (template %s)" % (hit["match"]["kind"], reqs[i]["method"], reqs[i]["path"], tmpl))
